@@ -46,6 +46,8 @@ def cases(draw):
         "instant": draw(common.instants()),
         "enum_cycle": draw(st.integers(0, 11)),
         "rpc": draw(st.sampled_from([1, 2, 3, 7, 1024])),
+        # the judged tree is the one returned by an open that also writes the index cache
+        "create_cache": draw(st.sampled_from([False, False, False, True])),
         "policy": draw(st.sampled_from(["decoy", "decoy", "blank"])),
         "vseed": draw(st.integers(0, 2**32 - 1)),
     }
@@ -61,6 +63,8 @@ def classify(case):
     labels = [f"level={case['level']}", f"enum_cycle={case['enum_cycle'] % 6}"]
     if any(im.get("blank_header") for im in case["images"]):
         labels.append("blank-header")
+    if case.get("create_cache"):
+        labels.append("create_cache")
     inst = case["instant"]
     if inst["doy"] in (60, 366) or inst["ms"] == 86_399_999:
         labels.append("calendar-boundary")
@@ -72,12 +76,19 @@ def run_case(case):
     files, info = product.build_product(spec)
     out = []
     with harness.Materialised(files, "memory") as prod:
-        tree, err = harness.guard(harness.open_tree, prod.url, use_cache=False, records_per_chunk=case["rpc"])
-        if err is not None:
-            return [harness.disc("exception", "open_alos2", "a tree", harness.exc_text(err))]
-        flat, err = harness.guard(harness.flatten, tree)
-        if err is not None:
-            return [harness.disc("exception", "flatten", "loadable tree", harness.exc_text(err))]
+        opts = {"use_cache": False, "records_per_chunk": case["rpc"]}
+        if case.get("create_cache"):
+            opts["create_cache"] = True
+        try:
+            tree, err = harness.guard(harness.open_tree, prod.url, **opts)
+            if err is not None:
+                return [harness.disc("exception", "open_alos2", "a tree", harness.exc_text(err))]
+            flat, err = harness.guard(harness.flatten, tree)
+            if err is not None:
+                return [harness.disc("exception", "flatten", "loadable tree", harness.exc_text(err))]
+        finally:
+            if case.get("create_cache"):
+                common.drop_user_cache(prod.url, info["names"]["sar_imagery"])
     for iinfo, gname in zip(info["images"], common.group_names(spec)):
         out.extend(model.check_image_group(iinfo, gname, flat, harness.disc))
     return out
